@@ -1435,6 +1435,7 @@ def _similar_second_linear(run: Run, src):
 
 
 def run(run: Run):
+    from .common import cached_guard as _cached_guard
     src = get_source()
     g = get_grammar(src)
     em = get_emission(src)
@@ -1446,11 +1447,11 @@ def run(run: Run):
     run.rule('C12.R5', 'argument plumbing of SUMIF/SUMIFS/COUNTIFS/AVERAGEIFS equals the confirmed reference')
     run.rule('C12.R6', 'deselection sentinel: recognised by identity/type, never fed to a criterion')
     run.rule('C12.R7', 'wildcard -> regex conversion: homogeneous guarded runs, ? = n characters, * = any run, tilde consumed, metacharacters escaped')
-    run.guard('C12.R1', helpers, run, rt)
-    run.guard('C12.R3', r3, run, src, em)
-    run.guard('C12.R4', r4, run, src)
-    run.guard('C12.R5', check_plumbing, run, 'C12.R5', src, em, rt, FUNCS)
-    run.guard('C12.R7', r7, run, rt)
+    _cached_guard(run, 'C12.R1', helpers, rt)
+    _cached_guard(run, 'C12.R3', r3, src, em)
+    _cached_guard(run, 'C12.R4', r4, src)
+    _cached_guard(run, 'C12.R5', check_plumbing, 'C12.R5', src, em, rt, FUNCS)
+    _cached_guard(run, 'C12.R7', r7, rt)
     # a function result depends on its arguments only: no runtime helper keeps results or other state between calls
     from .common import borrow as _borrow
     from . import c08 as _c08
@@ -1462,9 +1463,9 @@ def run(run: Run):
     _borrow(run, 'C12.R8', _c08.r1, _src, _grt(_src), _gcg(_src))
     _borrow(run, 'C12.R8', _c08.r4, _src, _grt(_src))
     run.rule('C12.R9', 'a text literal is a wildcard pattern exactly when it has an unescaped ? or *')
-    run.guard('C12.R9', r9_pattern_token_language, run, g)
+    _cached_guard(run, 'C12.R9', r9_pattern_token_language, g)
     run.rule('C12.R10', 'the date reading of a criterion operand keeps a date-time as it is; numbers are not dates')
-    run.guard('C12.R10', r10_date_operand, run, rt)
+    _cached_guard(run, 'C12.R10', r10_date_operand, rt)
     run.floor('C12.R10', 10)
     run.floor('C12.R9', 18)
     run.floor('C12.R8', 50)
